@@ -16,6 +16,29 @@ ASSUMPTIONS = ['a successful write that changes nothing (SADD of a present membe
 
 W, O = b'wk', b'ok'
 
+
+def shard_of(key):
+    """Shard placement of a key (FNV-1a 64 mod 16, as the storage engine computes it): two-key commands take different
+    code paths for keys of the same shard and of different shards, so scenarios cover both placements."""
+    h = 0xcbf29ce484222325
+    for b in key:
+        h ^= b
+        h = (h * 0x100000001b3) & 0xffffffffffffffff
+    return h % 16
+
+
+def name_in_shard(prefix, same_as, same=True):
+    i = 0
+    while True:
+        k = prefix + str(i).encode()
+        if (shard_of(k) == shard_of(same_as)) == same and k != same_as:
+            return k
+        i += 1
+
+
+SRC_SAME, SRC_OTHER = name_in_shard(b'src', W, True), name_in_shard(b'src', W, False)
+DST_SAME, DST_OTHER = name_in_shard(b'dst', W, True), name_in_shard(b'dst', W, False)
+
 PRE = {
     'absent': [],
     'string': [[b'SET', W, b'10']],
@@ -35,8 +58,12 @@ def writes(T):
         ('MSET', [[b'MSET', T, b'v', O + b'2', b'x']]), ('GETSET', [[b'GETSET', T, b'v']]), ('APPEND', [[b'APPEND', T, b'x']]),
         ('SETRANGE', [[b'SETRANGE', T, b'1', b'x']]), ('INCR', [[b'INCR', T]]), ('DECR', [[b'DECR', T]]),
         ('INCRBY', [[b'INCRBY', T, b'5']]), ('DECRBY', [[b'DECRBY', T, b'5']]), ('DEL', [[b'DEL', T]]),
-        ('RENAME-from', [[b'RENAME', T, b'dst']]), ('RENAME-to', [[b'SET', b'src', b'1'], [b'RENAME', b'src', T]]),
-        ('RENAMENX-from', [[b'RENAMENX', T, b'dst']]), ('RENAMENX-to', [[b'SET', b'src', b'1'], [b'RENAMENX', b'src', T]]),
+        ('RENAME-from-sameshard', [[b'RENAME', T, DST_SAME]]), ('RENAME-from-othershard', [[b'RENAME', T, DST_OTHER]]),
+        ('RENAME-to-sameshard', [[b'SET', SRC_SAME, b'1'], [b'RENAME', SRC_SAME, T]]),
+        ('RENAME-to-othershard', [[b'SET', SRC_OTHER, b'1'], [b'RENAME', SRC_OTHER, T]]),
+        ('RENAMENX-from-sameshard', [[b'RENAMENX', T, DST_SAME]]), ('RENAMENX-from-othershard', [[b'RENAMENX', T, DST_OTHER]]),
+        ('RENAMENX-to-sameshard', [[b'SET', SRC_SAME, b'1'], [b'RENAMENX', SRC_SAME, T]]),
+        ('RENAMENX-to-othershard', [[b'SET', SRC_OTHER, b'1'], [b'RENAMENX', SRC_OTHER, T]]),
         ('EXPIRE', [[b'EXPIRE', T, b'100']]), ('PEXPIRE', [[b'PEXPIRE', T, b'100000']]), ('EXPIRE-0', [[b'EXPIRE', T, b'0']]),
         ('PERSIST', [[b'PERSIST', T]]), ('FLUSHDB', [[b'FLUSHDB']]), ('FLUSHALL', [[b'FLUSHALL']]),
         ('LPUSH', [[b'LPUSH', T, b'x']]), ('RPUSH', [[b'RPUSH', T, b'x']]), ('LPOP', [[b'LPOP', T]]), ('RPOP', [[b'RPOP', T]]),
@@ -79,6 +106,8 @@ def scenarios(quick):
             st += [(1, [b'MULTI']), (1, [b'SET', b'marker', b'1']), (1, [b'EXEC']), (1, [b'EXISTS', b'marker'])]
             out.append(('%s/%s/other-key' % (pre, label), st))
         for label, ws in writes(W)[:14] + [w for w in writes(W) if w[0] in ('FLUSHDB', 'LPUSH', 'DEL', 'EXPIRE')]:
+            if label.startswith('RENAME'):
+                continue
             st = [(2, a) for a in PRE[pre]]
             st += [(1, [b'WATCH', W]), (2, [b'SELECT', b'1'])] + [(2, a) for a in ws]
             st += [(1, [b'MULTI']), (1, [b'SET', b'marker', b'1']), (1, [b'EXEC']), (1, [b'EXISTS', b'marker'])]
